@@ -556,6 +556,11 @@ class MultiVector:
 
             data = new_data
 
+        elif any(is_zero(coeff) for coeff in data.values()):
+            # data is in bits form (or a scalar): zero coefficients are not stored
+            data = {bits: coeff for bits, coeff in data.items()
+                    if not is_zero(coeff)}
+
         # }}}
 
         # assert that multivectors don't get nested
